@@ -110,7 +110,7 @@ Definition c12_sched : list label :=
    LReloadCall 0; LReloadBegin 0; LFetch (CbCfg c12_b); LStopCallS 0; LShutdownRet 0 SOk;
    LBootCreate 1 c12_b; LBindOk 1; LProbeOk; LFinish; LReloadRet 0;
    LObsState FRunning; LObsDial [66%N] true; LObsDial [65%N] false;
-   LStopCall 0; LRunWake; LRunLockStop; LStopCallS 1; LShutdownRet 1 SOk; LRunRet ROk; LStopRet 0;
+   LStopCall 0; LRunWake; LRunLockStop; LStopCallS 1; LShutdownRet 1 SOk; LRunFinishStop; LRunRet ROk; LStopRet 0;
    LObsDial [66%N] false].
 Example C12_ex_full_cycle :
   exists s, run (step true false (fun _ => true)) (init c12_a) c12_sched = Some s /\
